@@ -240,6 +240,27 @@ def features(b, line_action):
     return '+'.join(f) or '-'
 
 
+def _cs(s):
+    return {'a': 'Apply', 'o': {'op': 'CreateStream', 's': s, 'n': 1, 'R': ['r1', 'r2', 'r3'], 'ldr': 'r1', 'subj': s,
+                                'cfg': 'none', 'ts': 7}}
+
+
+# directed histories: TLC counterexamples of defective variants of the model that are deeper than the exhaustive
+# covers reach (kept as stimuli; each is continued to the end of its recovery by complete())
+DIRECTED = [
+    # a heap that lost its last subscriber must not decide the group epoch after a restore (A_RS_GroupEpoch at 6
+    # operations with the pre-a339921 GRemoveMember): the delete is replayed behind the snapshot ...
+    [_cs('sa'), {'a': 'Apply', 'o': {'op': 'CreateGroup', 'g': 'g1', 'c': 'c1', 'S': ['sa'], 'coord': 'A'}}, _cs('sb'),
+     {'a': 'Apply', 'o': {'op': 'JoinGroup', 'g': 'g1', 'c': 'c2', 'S': ['sb']}},
+     {'a': 'Apply', 'o': {'op': 'LeaveGroup', 'g': 'g1', 'c': 'c1'}}, {'a': 'Snapshot'}, {'a': 'Persist'},
+     {'a': 'Apply', 'o': {'op': 'DeleteStream', 's': 'sa'}}, {'a': 'Restart'}],
+    # ... or applied live after a restart from the snapshot (server B never restarted: Det_GroupEpoch)
+    [_cs('sa'), {'a': 'Apply', 'o': {'op': 'CreateGroup', 'g': 'g1', 'c': 'c1', 'S': ['sa'], 'coord': 'A'}}, _cs('sb'),
+     {'a': 'Apply', 'o': {'op': 'JoinGroup', 'g': 'g1', 'c': 'c2', 'S': ['sb']}},
+     {'a': 'Apply', 'o': {'op': 'LeaveGroup', 'g': 'g1', 'c': 'c1'}}, {'a': 'Snapshot'}, {'a': 'Persist'}, {'a': 'Restart'},
+     {'a': 'Restore'}, {'a': 'GoLive'}, {'a': 'Apply', 'o': {'op': 'DeleteStream', 's': 'sa'}}],
+]
+
 REAL_OPS = {'CreateStream', 'DeleteStream', 'Pause', 'Resume', 'SetReadonly', 'CreateGroup', 'JoinGroup', 'LeaveGroup'}
 
 
@@ -343,7 +364,7 @@ def run(rep, tier, seed, replay):
             behaviours.append(b)
         lap('design + simulation ' + mc[:-4])
     # the open findings must stay reachable in the model (otherwise the model lost them)
-    for cfg, prop in (('MC_MetadataFSM_finding.cfg', 'A_RS_GroupEpoch'), ('MC_MetadataFSM_finding2.cfg', 'A_RS_GroupAsg')):
+    for cfg, prop in (('MC_MetadataFSM_finding2.cfg', 'A_RS_GroupAsg'),):
         fres = core.tlc_check('MC_MetadataFSM.tla', cfg, timeout=600, workers=4)
         rep.cov['design_checks'].append({'config': cfg[:-4], 'violated': fres['violated'],
                                          'note': 'expected: %s violated (open known finding reachable in the model)' % prop})
@@ -379,6 +400,8 @@ def run(rep, tier, seed, replay):
             b.pop('_edges', None)
             b['id'] = len(behaviours) + 1
             behaviours.append(b)
+    for steps in DIRECTED:
+        behaviours.append({'id': len(behaviours) + 1, 'cfg': {'groups': GROUPS}, 'steps': complete(list(steps))})
     lap('dot dump + cover')
     real = real_behaviours(behaviours, 2 if quick else 12, len(behaviours) + 1)
     for b in real:
